@@ -233,7 +233,7 @@ theorem merge_SInv {T : Tun} (hT : TunOK T) (F : SecFns ρ) (s o : Sketch ρ) (a
     | cons a b => rw [hoc] at this; simp at *; omega
   have hI2 : SInv T s2 := by
     refine ⟨by show 2 ≤ s1.k; rw [g.k]; exact hs.k2, by show CsInv T s1.hra 0 cs; rw [g.hra]; exact ml.inv, hcsnn, rfl, rfl, ?_,
-      fun _ => hcne, ?_, ?_, ?_, ?_⟩
+      fun _ => hcne, ?_, ?_, ?_, ?_, ?_⟩
     · show s.n + o.n = totalW cs; rw [ml.tw, hs1tw, ho.tw]
     · intro h0; exfalso; simp [s2] at h0; exact hn0 h0.2
     · show s.n + o.n = (entered0L cs).length
@@ -242,6 +242,36 @@ theorem merge_SInv {T : Tun} (hT : TunOK T) (F : SecFns ρ) (s o : Sketch ρ) (a
       rw [hent]; exact IsMin_append hs.mn ho.mn
     · show IsMax (optMaxO s.maxItem o.maxItem) (entered0L cs)
       rw [hent]; exact IsMax_append hs.mx ho.mx
+    · intro m hm p
+      show cntP p m.items = cntP p m.entered
+      have hm : cs = [m] := hm
+      have hl := ml.len; rw [hm] at hl
+      have hs1l : s1.compactors.length = 1 := by simpa using hl.symm
+      have hol : o.compactors.length = 1 := by
+        have h1 := g.ge
+        have h2 : 1 ≤ o.compactors.length := by cases hoc : o.compactors with
+          | nil => exact absurd hoc hone
+          | cons a b => simp
+        omega
+      obtain ⟨o0, ho0⟩ := List.length_eq_one_iff.1 hol
+      have hex : extra = [] := by
+        have : s.compactors.length + extra.length = 1 := by rw [← List.length_append, ← he1]; exact hs1l
+        have : 1 ≤ s.compactors.length := by cases hsc : s.compactors with
+          | nil => exact absurd hsc hs.nonnil
+          | cons a b => simp
+        exact List.length_eq_zero_iff.1 (by omega)
+      rw [hex, List.append_nil] at he1
+      obtain ⟨c0, hc0⟩ := List.length_eq_one_iff.1 (by rw [← he1]; exact hs1l : s.compactors.length = 1)
+      have hcs' := hcs
+      rw [he1, hc0, ho0] at hcs'
+      simp only [mergeLevels] at hcs'
+      rw [hm] at hcs'
+      simp only [List.cons.injEq, and_true] at hcs'
+      have hinv0 := hs.cs; rw [hc0] at hinv0
+      have hinvo := hocs; rw [ho0] at hinvo
+      have sp := cmerge_spec hT F hinv0.1 hinvo.1
+      rw [hcs'] at sp
+      rw [sp.cnt p, sp.ent, cntP_append, hs.ex c0 hc0 p, ho.ex o0 ho0 p]; omega
   have hent2 : entered0 s2 = entered0 o ++ entered0 s := hent
   change (if s2.numRetained ≥ s2.maxNomSize then some (s2.compress T F acc) else some (s2, acc)) = some r at hr
   split at hr
